@@ -127,7 +127,7 @@ func (c *Collection) ExplainQuery(statement string, args map[string]any) (plan m
 func (c *Collection) prepareQuery(statement string, args map[string]any) (string, []any) {
 	// Replace `$_keyspace` with a sub-query matching documents in this collection:
 	statement = strings.Replace(statement, sgbucket.KeyspaceQueryToken, "_keyspace", -1)
-	statement = fmt.Sprintf(`WITH _keyspace as (SELECT key as id, value as body, xattrs
+	statement = fmt.Sprintf(`WITH _keyspace as (SELECT key as id, CAST(value AS TEXT) as body, CAST(xattrs AS TEXT) as xattrs
 							 FROM documents WHERE collection=%d AND value NOT NULL) %s`,
 		c.id, statement)
 	// Convert the args to an array of sql.NamedArg values:
